@@ -232,6 +232,17 @@ pub fn search() -> Option<String> {
             }
         }
     }
+    // n-gram sizes well beyond the window and beyond the length of the short sentences ("including 0 and n > window"):
+    // the clipped window then ends before the n-gram does
+    for corpus in 0..CORPORA.len() {
+        for (cw, cn, tw, tn) in [(0u8, 3u8, 0u8, 3u8), (1, 4, 1, 4), (1, 5, 2, 4), (2, 6, 1, 3), (0, 4, 1, 1), (1, 1, 0, 5)] {
+            for dict in [0u8, 3] {
+                if let Some(d) = check(cw, cn, tw, tn, dict, corpus, (corpus + dict as usize) % 2) {
+                    return Some(d);
+                }
+            }
+        }
+    }
     // window sizes at the far end of their type (u8): "any window and n-gram sizes"
     for corpus in [0usize, 1, 5, 8] {
         for (cw, cn, tw, tn) in [(127u8, 2u8, 1u8, 1u8), (128, 2, 1, 1), (1, 1, 200, 2), (255, 3, 255, 3), (200, 1, 128, 1)] {
